@@ -88,6 +88,7 @@ int main(int argc, char **argv) {
     }
     FILE *in = fopen(argv[1], "r");
     if (!in) return 2;
+    FILE *devnull = fopen("/dev/null", "w");
     vh_open(argv[2]);
     vh_install_handlers();
     vh_ledger_on = 1; vh_quarantine = 1;
@@ -167,6 +168,7 @@ int main(int argc, char **argv) {
             } else if (!strcmp(op, "remove")) ok = T->remove(T, name);
             else if (!strcmp(op, "clear")) T->clear(T);
             else if (!strcmp(op, "size")) rv = (int) T->size(T);
+            else if (!strcmp(op, "debug")) ok = T->debug(T, devnull);
             else if (!strcmp(op, "walk")) {
                 qhashtbl_obj_t o; memset(&o, 0, sizeof o);
                 nout = 0;
